@@ -52,7 +52,9 @@ def run(tier):
               "otherext": (["prog.penne"], True), "noext": (["prog"], True), "accent": (["accent.pn"], False),
               # compilations that fail inside the generator / LLVM's verifier (the listed findings D45 and D60 of C02/C10: no
               # rendered diagnostic): whatever is printed, the tool must not report success, run a back end or leave IR behind
-              "huge": (["huge.pn"], False), "opaque": (["opaque.pn"], False)}   # a zero-byte file is an error (E101)        # a module without declarations (only a comment) is a module
+              "huge": (["huge.pn"], False), "opaque": (["opaque.pn"], False),
+              # the error (E402) stands in a LATER statement than the one it poisons
+              "late": (["late.pn"], False)}   # a zero-byte file is an error (E101)        # a module without declarations (only a comment) is a module
     for sub in ("build", "run", "emit"):
         for inp in inputs:
             opts_space = [("silent", [False, True]), ("verbose", [False, True]), ("color", [None, "never", "always"]), ("arrows", [None, "ascii", "unicode"]),
@@ -77,6 +79,7 @@ def run(tier):
         open(os.path.join(d, "zero.pn"), "w").write("")
         open(os.path.join(d, "huge.pn"), "w").write("struct Big\n{\n\tdata: [5000000000]u8,\n}\nfn touch(big: &Big) -> i32\n{\n\treturn: 1\n}\nfn main() -> i32\n{\n\treturn: 0\n}\n")
         open(os.path.join(d, "opaque.pn"), "w").write("struct Foo;\nfn main() -> i32\n{\n\tvar x: Foo;\n\treturn: 0\n}\n")
+        open(os.path.join(d, "late.pn"), "w").write("fn main() -> i32\n{\n\tvar x;\n\tx = undefined_late;\n\treturn: 0\n}\n")
         open(os.path.join(d, "prog.penne"), "w").write(VALID_A); open(os.path.join(d, "prog"), "w").write(VALID_A)
         open(os.path.join(d, "accent.pn"), "w", encoding="utf-8").write("// Berechnet die Größe der Tabelle für das Café «Zoë» ✓✓✓✓✓✓✓✓✓✓✓✓✓✓✓✓ €€€€ 😀😀\n" + INVALID.replace("fn main", "// ï\nfn main"))
         for rel, text in DIRS.items():
